@@ -33,7 +33,7 @@ var c14PoolEsc = []string{"\x00", "q\"uote", "back\\slash", "line\n2", "tab\t", 
 var c14Numbers = []string{"0", "1", "-1", "42", "7", "123", "3.14", "2.5", "1e3", "-0", "0.0", "00012", "9223372036854775807", "9223372036854775808", "1704164645", "12345678901234567890123"}
 
 var c14Sels = []string{"a", "b", "c", "msg", "level", "ts", "n", "o", "o.x", "o.y", "o.z.w", "arr", "arr.0", "arr.1",
-	"arr.-0", "arr.+1", "arr.x", "arr.01", `k\.dot`, "ключ", "", "missing", "a.b", "o.x.0", "arr.0.x", "o..x", "big.k7"}
+	"arr.-0", "arr.+1", "arr.x", "arr.01", "o.q\"k", `k\.dot`, "ключ", "", "missing", "a.b", "o.x.0", "arr.0.x", "o..x", "big.k7"}
 
 var c14TopKeys = []string{"a", "b", "c", "msg", "level", "ts", "n", "o", "arr", "k.dot", "ключ", "big"}
 
@@ -45,6 +45,9 @@ var c14Formats = []string{"rfc3339nano", "rfc3339", "unixtime", "unixtimemilli",
 var c14Regexes = []string{"^a", "b$", ".*", "", "^$", "[0-9]+", "(?i)error", `pod-\d`, `\x00`, "^.$", "юни", "^(a|b)+$", "a.c", "(?s)^.+$", `^\w+$`, "k"}
 
 var c14TypeNames = []string{"obj", "object", "arr", "array", "num", "number", "str", "string", "null", "nil"}
+
+// keys of nested objects; the last two need JSON escaping
+var c14NestedKeys = []string{"x", "y", "z", "w", "x", "y", "z", "w", "x", "y", "q\"k", "t\tb"}
 
 const c14Epoch = int64(1704164645) * 1e9 // 2024-01-02T03:04:05Z
 
@@ -84,7 +87,7 @@ func c14Val(r *hx.Rng, depth int, noEsc bool) *jt.Tree {
 	default:
 		t := jt.O()
 		for i, n := 0, r.Range(0, 3); i < n; i++ {
-			t.Obj = append(t.Obj, jt.KV{K: []byte(r.Pick([]string{"x", "y", "z", "w"})), V: c14Val(r, depth+1, noEsc)})
+			t.Obj = append(t.Obj, jt.KV{K: []byte(r.Pick(c14NestedKeys)), V: c14Val(r, depth+1, noEsc)})
 		}
 		return t
 	}
@@ -107,7 +110,7 @@ func c14Event(r *hx.Rng, noEsc bool) *jt.Tree {
 		case k == "o" && r.Chance(3, 4):
 			v = jt.O()
 			for j, m := 0, r.Range(0, 3); j < m; j++ {
-				v.Obj = append(v.Obj, jt.KV{K: []byte(r.Pick([]string{"x", "y", "z"})), V: c14Val(r, 1, noEsc)})
+				v.Obj = append(v.Obj, jt.KV{K: []byte(r.Pick(c14NestedKeys)), V: c14Val(r, 1, noEsc)})
 			}
 		case k == "arr" && r.Chance(3, 4):
 			v = jt.A()
@@ -574,6 +577,86 @@ func c14MatchSmall(w *bufio.Writer) {
 	}
 }
 
+// ---------------------------------------------------------------- JSON escapes and evaluation order
+
+// c14Escapes: byte_len_cmp over a container that holds strings with JSON escapes, placed after
+// leaves that may or may not have unescaped those strings, depending on the short-circuit order.
+func c14Escapes(w *bufio.Writer, r *hx.Rng, n int) {
+	esc := []string{"x\ny", "q\"", "a\\b", "\x00", "tab\t\t", "plain", "", "7", "line\n2\r\n"}
+	keys := []string{"x", "y", "q\"k", "z"}
+	mkPath := func(sel string) (string, [][]byte) {
+		var path [][]byte
+		for _, x := range cfg.ParseFieldSelector(sel) {
+			path = append(path, []byte(x))
+		}
+		return sel, path
+	}
+	for i := 0; i < n; i++ {
+		o := jt.O()
+		for j, m := 0, r.Range(1, 3); j < m; j++ {
+			o.Obj = append(o.Obj, jt.KV{K: []byte(keys[r.Intn(len(keys))]), V: jt.S(r.Pick(esc))})
+		}
+		arr := jt.A()
+		for j, m := 0, r.Range(1, 3); j < m; j++ {
+			if r.Chance(1, 5) {
+				arr.Arr = append(arr.Arr, jt.A(jt.S(r.Pick(esc))))
+			} else {
+				arr.Arr = append(arr.Arr, jt.S(r.Pick(esc)))
+			}
+		}
+		ev := jt.O(jt.F("o", o), jt.F("arr", arr), jt.F("c", jt.S(r.Pick([]string{"1", "0"}))))
+		size := map[string]int{"o": len(o.JSON()), "arr": len(arr.JSON()), "": len(ev.JSON())}
+		leaf := func() *c14Rule {
+			switch r.Intn(6) {
+			case 0, 1: // the measured leaf
+				sel := r.Pick([]string{"o", "arr", "", "o", "arr"})
+				l := &c14Rule{Kind: "l", LKind: "b", Cmp: r.Pick([]string{"eq", "ne", "lt", "ge", "le", "gt"}), IVal: int64(size[sel] - r.Range(0, 4))}
+				l.Sel, l.Path = mkPath(sel)
+				return l
+			case 2: // the guard
+				f := &c14Rule{Kind: "f", Op: "eq", CS: true, Vals: [][]byte{[]byte("1")}}
+				f.Sel, f.Path = mkPath("c")
+				return f
+			default: // a leaf that reads (and thereby unescapes) a nested string
+				sel := r.Pick([]string{"o.x", "o.y", "arr.0", "arr.1", "o.q\"k", "arr.0.0"})
+				switch r.Intn(4) {
+				case 0:
+					f := &c14Rule{Kind: "f", Op: r.Pick([]string{"eq", "co", "pr"}), CS: true, Vals: [][]byte{[]byte(r.Pick(esc)), []byte("x")}}
+					f.Sel, f.Path = mkPath(sel)
+					return f
+				case 1:
+					l := &c14Rule{Kind: "l", LKind: r.Pick([]string{"b", "i"}), Cmp: r.Pick([]string{"lt", "ge"}), IVal: int64(r.Range(0, 8))}
+					l.Sel, l.Path = mkPath(sel)
+					return l
+				case 2:
+					t := &c14Rule{Kind: "t", Fmt: "rfc3339", Cmp: "lt", Mode: "c", CVal: c14Epoch, Interval: int64(time.Hour)}
+					t.Sel, t.Path = mkPath(sel)
+					return t
+				default:
+					y := &c14Rule{Kind: "y", Vals: [][]byte{[]byte("str")}}
+					y.Sel, y.Path = mkPath(sel)
+					return y
+				}
+			}
+		}
+		var tree func(d int) *c14Rule
+		tree = func(d int) *c14Rule {
+			if d == 0 || r.Chance(1, 3) {
+				return leaf()
+			}
+			if r.Chance(1, 6) {
+				return &c14Rule{Kind: "not", Ops: []*c14Rule{tree(d - 1)}}
+			}
+			t := &c14Rule{Kind: r.Pick([]string{"and", "or"})}
+			for j, m := 0, r.Range(2, 3); j < m; j++ {
+				t.Ops = append(t.Ops, tree(d-1))
+			}
+			return t
+		}
+		c14Emit(w, c14DoIfLine(c14Epoch, tree(r.Range(1, 3)), ev))
+	}
+}
+
 // ---------------------------------------------------------------- generator
 
 func genC14(w *bufio.Writer, r *hx.Rng, tier string) {
@@ -583,32 +666,16 @@ func genC14(w *bufio.Writer, r *hx.Rng, tier string) {
 	}
 	c14Small(w, r, tier)
 	c14MatchSmall(w)
+	c14Escapes(w, r, nDoIf/8)
 	for i := 0; i < nDoIf; i++ {
-		// the rule is drawn against a first event; a byte_len_cmp rule gets an event whose nested
-		// strings need no JSON escaping (the modelled scope of getNodeBytesSize)
-		seed := r.U64()
-		build := func(noEsc bool) (*c14Rule, *jt.Tree) {
-			rr := hx.NewRng(seed)
-			ev := c14Event(rr, noEsc)
-			root := c14Decode(ev.JSON())
-			if root == nil {
-				return nil, nil
-			}
-			defer insaneJSON.Release(root)
-			ctx := &c14Ctx{r: rr, root: root}
-			depth := rr.Range(0, 5)
-			return ctx.rule(depth), ev
-		}
-		rule, ev := build(false)
-		if rule != nil && rule.hasByteLen() {
-			rule, ev = build(true)
-			if rule != nil && !rule.hasByteLen() {
-				continue
-			}
-		}
-		if rule == nil {
+		ev := c14Event(r, false)
+		root := c14Decode(ev.JSON())
+		if root == nil {
 			continue
 		}
+		ctx := &c14Ctx{r: r, root: root}
+		rule := ctx.rule(r.Range(0, 5))
+		insaneJSON.Release(root)
 		now := c14Epoch + c14Pick64(r, []int64{0, 1, -1, int64(time.Hour), -int64(time.Hour) * 3})
 		c14Emit(w, c14DoIfLine(now, rule, ev))
 	}
@@ -692,6 +759,15 @@ func genC14Witnesses(w *bufio.Writer, _ *hx.Rng, _ string) {
 	c14Emit(w, c14DoIfLine(c14Epoch, fop("re", true, "f", ".*"), obj(jt.F("f", jt.O(jt.F("x", jt.Nu("1")))))))
 	c14Emit(w, c14DoIfLine(c14Epoch, fop("eq", true, "f", "\x00"), obj(jt.F("f", jt.O()))))
 	c14Emit(w, c14DoIfLine(c14Epoch, fop("ca", true, "", "\x00"), obj(jt.F("f", jt.S("x")))))
+
+	note("(d) byte_len_cmp over a container depends on whether an earlier node unescaped a nested string: the rule's documented answer is true for both events (o is 12 bytes); c=1 makes the and-branch read o.x first")
+	order := &c14Rule{Kind: "or", Ops: []*c14Rule{
+		{Kind: "and", Ops: []*c14Rule{fop("eq", true, "c", "1"), fop("eq", true, "o.x", "zz")}},
+		blen("o", "eq", 12)}}
+	c14Emit(w, c14DoIfLine(c14Epoch, order, obj(jt.F("o", jt.O(jt.F("x", jt.S("a\nb")))), jt.F("c", jt.S("0")))))
+	c14Emit(w, c14DoIfLine(c14Epoch, order, obj(jt.F("o", jt.O(jt.F("x", jt.S("a\nb")))), jt.F("c", jt.S("1")))))
+	note("(f) byte_len_cmp counts a field name by its decoded length: {\"q\\\"k\":1} is 10 bytes")
+	c14Emit(w, c14DoIfLine(c14Epoch, blen("f", "eq", 10), obj(jt.F("f", jt.O(jt.F("q\"k", jt.Nu("1")))))))
 
 	note("(e) byte_len_cmp: an empty array / object is 2 bytes")
 	c14Emit(w, c14DoIfLine(c14Epoch, blen("f", "eq", 2), obj(jt.F("f", jt.A()))))
